@@ -15,6 +15,7 @@ import (
 
 	"github.com/artela-network/artela-evm/vm"
 	"github.com/ethereum/go-ethereum/common"
+	upvm "github.com/ethereum/go-ethereum/core/vm"
 	"github.com/holiman/uint256"
 )
 
@@ -298,7 +299,95 @@ func drivePrecompile(seed uint64, n int, size int, em *Emitter) {
 		}
 		// ---------- (c) inherited precompiles 1-9: bytes allocated per call against the gas the call must pay (C20, measured)
 		stdPrecompileWork(r, em, seed, i)
+		stdPrecompileGas(r, em, seed, i)
 	}
+}
+
+// stdPrecompileGas: what an inherited precompile does for an input is go-ethereum's (identity fact), so its work is bounded by
+// go-ethereum's price for that input; the fork must not ask less. Inputs are structured per precompile: for MODEXP the three
+// length words with exponents whose leading 32 bytes are zero / all ones / random and whose tail is long; for the hashes and
+// the identity function lengths either side of a word; for BLAKE2F the round count.
+func stdPrecompileGas(r *Rng, em *Emitter, seed uint64, i int) {
+	tables := []struct {
+		name string
+		fork map[common.Address]vm.PrecompiledContract
+		up   map[common.Address]upvm.PrecompiledContract
+	}{{"Byzantium", vm.PrecompiledContractsByzantium, upvm.PrecompiledContractsByzantium},
+		{"Istanbul", vm.PrecompiledContractsIstanbul, upvm.PrecompiledContractsIstanbul},
+		{"Berlin", vm.PrecompiledContractsBerlin, upvm.PrecompiledContractsBerlin}}
+	t := tables[r.Intn(len(tables))]
+	addrB := byte(1 + r.Intn(9))
+	if r.Chance(40) {
+		addrB = 5
+	}
+	addr := common.BytesToAddress([]byte{addrB})
+	fp, ok1 := t.fork[addr]
+	upc, ok2 := t.up[addr]
+	if !ok1 || !ok2 {
+		return
+	}
+	var in []byte
+	switch addrB {
+	case 5:
+		w := func(v uint64) []byte { return word32(uint256.NewInt(v)) }
+		bl := []uint64{0, 1, 32, 64, 256}[r.Intn(5)]
+		ml := []uint64{0, 1, 32, 64, 256}[r.Intn(5)]
+		el := []uint64{0, 1, 31, 32, 33, 40, 64, 300, 4096}[r.Intn(9)]
+		exp := r.Bytes(int(el))
+		switch r.Intn(5) {
+		case 0: // the leading 32 bytes zero, the tail not
+			for k := 0; k < len(exp) && k < 32; k++ {
+				exp[k] = 0
+			}
+		case 1:
+			for k := range exp {
+				exp[k] = 0
+			}
+		case 2:
+			for k := range exp {
+				exp[k] = 0xff
+			}
+		case 3: // a single low bit in the head
+			for k := 0; k < len(exp) && k < 32; k++ {
+				exp[k] = 0
+			}
+			if len(exp) >= 32 {
+				exp[31] = 1
+			}
+		}
+		in = append(append(append(w(bl), w(el)...), w(ml)...), r.Bytes(int(bl))...)
+		in = append(in, exp...)
+		in = append(in, r.Bytes(int(ml))...)
+		if r.Chance(10) && len(in) > 96 {
+			in = in[:96+r.Intn(len(in)-96)] // truncated: the missing part reads as zeros
+		}
+	case 9:
+		in = r.Bytes(213)
+		rounds := []uint32{0, 1, 12, 1 << 16, 1<<32 - 1}[r.Intn(5)]
+		in[0], in[1], in[2], in[3] = byte(rounds>>24), byte(rounds>>16), byte(rounds>>8), byte(rounds)
+		in[212] = byte(r.Intn(2))
+		if r.Chance(10) {
+			in = in[:r.Intn(213)]
+		}
+	case 2, 3, 4:
+		in = r.Bytes([]int{0, 1, 31, 32, 33, 64, 1000, 1 << 16}[r.Intn(8)])
+	case 8:
+		in = r.Bytes(192 * r.Intn(4))
+	default:
+		in = r.Bytes([]int{0, 64, 128, 192, 384}[r.Intn(5)])
+	}
+	em.Reset(fmt.Sprintf("precompile-stdgas-%d-%d", seed, i))
+	g1, g2 := fp.RequiredGas(in), upc.RequiredGas(in)
+	verdict := "ok"
+	if g1 != g2 {
+		verdict = fmt.Sprintf("price_differs_from_reference:fork=%d:reference=%d", g1, g2)
+	}
+	hdr := in
+	if len(hdr) > 160 {
+		hdr = hdr[:160]
+	}
+	em.Op("C20,C02", fmt.Sprintf("S stdgas %s %x len=%d head=%s", t.name, addrB, len(in), hexBytes(hdr)), verdict)
+	em.Count(fmt.Sprintf("stdgas:%x", addrB))
 }
 
 // stdPrecompileWork runs one standard precompile on a boundary-driven input that a caller could pay for and compares the bytes
